@@ -45,6 +45,7 @@ type part struct {
 	Tags    string            // extra build tags
 	Env     []string          // extra env
 	OnlyT   bool              // part runs in the thorough tier only
+	Aux     bool              // auxiliary sampled pass (free-running -race): reported per part, not folded into the check's exhaustive flag
 	NoSubst string            // passed to the instrumenter as -nosubst
 	Patch   [][3]string       // {file relative to /repo, old, new}: the CURRENT file with one textual seam replacement is put in its place through the overlay (old must occur exactly once)
 	ModRepl map[string]string // module-cache file (relative to GOMODCACHE) -> file under /verif to put in its place through the overlay
@@ -309,6 +310,10 @@ func runCheck(c check, tier, replay string, keep, buildOnly bool) int {
 		}
 	}
 
+	auxPart := map[string]bool{}
+	for _, b := range bins {
+		auxPart[b.p.Name] = b.p.Aux
+	}
 	cov := map[string]any{}
 	var evals, distinct, states, trans, traces int64
 	exhaustive := true
@@ -324,7 +329,9 @@ func runCheck(c check, tier, replay string, keep, buildOnly bool) int {
 		states += p.States
 		trans += p.Transitions
 		traces += p.Traces
-		exhaustive = exhaustive && p.Exhaustive
+		if !auxPart[p.Part] {
+			exhaustive = exhaustive && p.Exhaustive
+		}
 		if p.Rule != "" && !ruleSeen[p.Part] {
 			ruleSeen[p.Part] = true
 			rules = append(rules, p.Part+": "+p.Rule)
